@@ -1051,7 +1051,7 @@ impl Gen {
                     } else {
                         if self.p.mode == Mode::Seq && self.rng.chance(1, 6) {
                             // the rebuild itself runs out of room
-                            ops.push(Op::Fsize(*self.rng.pick(&[0u8, 2, 2])));
+                            ops.push(Op::Fsize(*self.rng.pick(&[0u8, 2, 4, 5, 6, 7, 4, 5])));
                         }
                         ops.push(Op::Rebuild);
                     }
@@ -1097,10 +1097,10 @@ impl Gen {
                         ops.push(Op::TakeRef(*self.rng.pick(&r)));
                     }
                 }
-                "fail" if self.rng.chance(if self.p.mode == Mode::FailEnum { 9 } else { 3 }, 10) && self.p.mode != Mode::Crash => {
+                "fail" if self.rng.chance(if self.p.mode == Mode::FailEnum { 9 } else { 3 }, 10) => {
                     // the next store / removal runs under a file size limit (no room to grow the
                     // map, or for the engine to extend its file); a store is retried afterwards
-                    let mode = self.rng.below(4) as u8;
+                    let mode = *self.rng.pick(&[0u8, 1, 2, 3, 8, 8]);
                     match self.rng.weighted(&[42, 24, 18, 10, 6]) {
                         4 => {
                             let pk = *self.rng.pick(&self.authors);
